@@ -43,7 +43,8 @@ def main(inp, outp):
                 res["violations"].append({"key": key, "what": what, "data": data})
 
     # ---- histories of settings on ONE ephemeris object (EphemSettings.tla) -----------------------------------------------
-    for beh in job.get("settings", []):
+    for bidx, beh in enumerate(job.get("settings", [])):
+        doors_used = []
         n, deg, h = 16, beh["degree"], 30.0
         coef = [[((3 * k + 7 * j) % 11 - 5) / (10.0 ** j) for j in range(deg + 1)] for k in range(6)]
 
@@ -83,7 +84,18 @@ def main(inp, outp):
                 q, m, k = act[1], act[2], act[3]
                 t = h * q / 2.0
                 d = T0 + timedelta(seconds=t)
-                gsv = eph.interpolate(d)
+                # the doors to an interpolated point: interpolate(), its alias propagate(), an iteration over an explicit date and
+                # the sub-ephemeris built from one - used in turn
+                door = (bidx + len(doors_used)) % 4
+                doors_used.append(door)
+                if door == 0:
+                    gsv = eph.interpolate(d)
+                elif door == 1:
+                    gsv = eph.propagate(d)
+                elif door == 2:
+                    gsv = next(iter(eph.iter(dates=[d])))
+                else:
+                    gsv = list(eph.ephem(dates=[d]))[0]
                 got = np.asarray(gsv, float)
                 fr_, fo_ = act[4], act[5]
                 fresh_sv = Ephem([x.copy(frame=fr_, form=fo_) for x in svs], method=m, order=k).interpolate(d)
